@@ -839,6 +839,12 @@ fn gen_bworld(rng: &mut Rng) -> BWorld {
     }
 
     let n_tx = rng.range(4, 14) as usize;
+    // a third of the blocks: one account (funded, code-less, nonce 0: t2; the fee recipient; an absent
+    // one) is both storage holder and emptied / refilled by the scripts
+    let holder: Option<u8> = if rng.chance(1, 3) { Some(*rng.pick(&[2u8, 2, 5, 7])) } else { None };
+    if let Some(h) = holder {
+        descr.push(format!("holder profile: table[{h}] = {:x}", table(h)));
+    }
     let mut nonces = [0u64; 4];
     let mut txs = Vec::new();
     for i in 0..n_tx {
@@ -858,11 +864,23 @@ fn gen_bworld(rng: &mut Rng) -> BWorld {
             let n = rng.range(1, 5);
             let mut data = vec![i as u8, (rng.below(2) as u8) | (if rng.chance(1, 6) { (rng.range(1, 2) as u8) << 1 } else { 0 })];
             for _ in 0..n {
+                if let Some(h) = holder {
+                    // holder profile: the precompile keeps state in the storage of one account it
+                    // also empties (balance 0 on a code-less nonce-0 account removes the account and
+                    // its storage, EIP-161) and refills
+                    if rng.chance(2, 3) {
+                        let kind = *rng.pick(&[3u8, 3, 5, 1, 1, 2, 2, 0, 4]);
+                        let v = if kind == 2 && rng.chance(2, 3) { 0 } else { rng.range(1, 200) as u8 };
+                        data.extend_from_slice(&[kind, h, *rng.pick(&[0u8, 0, 1]), v]);
+                        continue;
+                    }
+                }
                 // biased towards the hot locations: counter slot 0, t1 balance, s0 balance, the beneficiary
                 let kind = *rng.pick(&[0u8, 1, 2, 3, 4, 4, 5, 5, 5]);
                 let a = *rng.pick(&[0u8, 0, 0, 1, 1, 3, 5, 5, 2, 4, 6, 7]);
                 let k = if a == 0 { *rng.pick(&[0u8, 0, 1]) } else { rng.below(3) as u8 };
-                data.extend_from_slice(&[kind, a, k, rng.range(1, 200) as u8]);
+                let v = if kind == 2 && rng.chance(1, 8) { 0 } else { rng.range(1, 200) as u8 };
+                data.extend_from_slice(&[kind, a, k, v]);
             }
             tx.data = data.into();
             tx.kind = TxKind::Call(if rng.chance(1, 4) { P0 } else { k_addr(rng.below(N_K as u64) as usize) });
